@@ -318,3 +318,21 @@ pub fn p_vec_put_varint() {
     assert!(out[1 + i] == spec::varint_byte(v.into_inner(), i));
     kani::cover!(n == 4);
 }
+
+/// Vec<u8> as BytesWriter: put_bytes appends exactly the given bytes and never fails.
+#[kani::proof]
+#[kani::unwind(10)]
+pub fn p_vec_put_bytes() {
+    let src: [u8; 6] = kani::any();
+    let len: usize = kani::any();
+    kani::assume(len <= 6);
+    let p0: u8 = kani::any();
+    let mut out: Vec<u8> = Vec::with_capacity(16);
+    out.push(p0);
+    assert!(out.put_bytes(&src[..len]).is_ok());
+    assert!(out.len() == 1 + len && out[0] == p0);
+    let i: usize = kani::any();
+    if i < len {
+        assert!(out[1 + i] == src[i]);
+    }
+}
